@@ -166,6 +166,10 @@ def run(ctx):
         R = Resolver(b)
         ok = False
         for l in R.cyclic:
+            # the label starts from 0: every other definition of the accumulator is "previous value + 2^i"
+            inits = [e for dbb, didx, e in R.var_defs(l) if e[0] == 'const']
+            if any(e[1] != 0 for e in inits):
+                continue
             for dbb, didx, e in R.var_defs(l):
                 x = e[1] if e[0] == 'field' else e
                 if x[0] == 'bin' and x[1].startswith('Add') and x[3][0] == 'bin' and x[3][1] == 'Shl' and x[3][2] == ('const', 1):
